@@ -163,8 +163,8 @@ PROPS = {
         'trusted': ['Checksum is driven through add()/reset()/value()/matches() only'],
     },
     'C07': {
-        'source_transfer': ['TransferTypes'],
-        'source_tie': ['Types'],
+        'source_transfer': ['TransferTypes', 'TransferBlocks'],
+        'source_tie': ['Types', 'Blocks'],
         'jobs': [{'component': 'fields', 'profile': 'decode', 'quick': 30, 'thorough': 400},
                  {'component': 'ch', 'profile': 'all-text', 'quick': 1, 'thorough': 1},
                  {'component': 'ch', 'profile': 'random', 'quick': 500, 'thorough': 5000},
@@ -179,8 +179,8 @@ PROPS = {
         'assumptions': ['well-formed = exactly the prescribed length (R6), text ranges well-formed UTF-8 (R5)'],
     },
     'C08': {
-        'source_transfer': ['TransferTypes', 'TransferValget'],
-        'source_tie': ['Types', 'CfgKeyData', 'CfgItem', 'Valget'],
+        'source_transfer': ['TransferTypes', 'TransferValget', 'TransferBlocks'],
+        'source_tie': ['Types', 'CfgKeyData', 'CfgItem', 'Valget', 'Blocks'],
         'jobs': [{'component': 'fields', 'profile': 'decode', 'quick': 30, 'thorough': 400},
                  {'component': 'ch', 'profile': 'all-text', 'quick': 1, 'thorough': 1},
                  {'component': 'ch', 'profile': 'random', 'quick': 500, 'thorough': 5000},
@@ -209,8 +209,8 @@ PROPS = {
         'assumptions': ['R3: 1-bit items are encoded by truthiness; R4: 1-3 trailing bytes of a VALGET response are not a pair'],
     },
     'C17': {
-        'source_transfer': ['TransferHelpers'],
-        'source_tie': ['Helpers'],
+        'source_transfer': ['TransferHelpers', 'TransferBlocks'],
+        'source_tie': ['Helpers', 'Types', 'Blocks'],
         'jobs': [{'component': 'gnss', 'profile': 'helpers', 'quick': 2400, 'thorough': 6000},
                  {'component': 'helper', 'profile': 'helpers', 'quick': 600, 'thorough': 1500}],
         'exhaustive_note': 'set_rate_in_hz for 0..11; every permutation of every subset of <= 2 (thorough <= 3) GNSS systems',
